@@ -3,8 +3,9 @@
    height and end derivatives, every input of the box falls into a bin, and therefore the spline is a strictly increasing
    bijection of [left, right] onto [bottom, top] whose inverse is the inverse branch. *)
 From Coq Require Import Reals ZArith List Bool Arith Lia Lra Sorted.
+From Coquelicot Require Import Coquelicot.
 From NF Require Import Base.Ops Base.Rops Base.Result Gen.Utils Gen.SplineRQ Model.Utils Model.Vec Model.SplineRQ
-  Proofs.VecR Proofs.UtilsR Proofs.SplineRQP.
+  Proofs.VecR Proofs.UtilsR Proofs.SplineRQP Proofs.Glue.
 Import ListNotations.
 Open Scope R_scope.
 
@@ -24,7 +25,7 @@ Section Knots.
   Lemma K_pos : (0 < K)%nat.
   Proof. unfold K. destruct u; [congruence | simpl; lia]. Qed.
 
-  Lemma kw_pos : Forall (fun v => 0 < v) kw.
+  Lemma kw_pos : List.Forall (fun v => 0 < v) kw.
   Proof.
     unfold kw. rewrite Forall_forall. intros v Hv. rewrite in_map_iff in Hv. destruct Hv as [s [<- Hs]].
     pose proof (softmax_pos u Hne) as P. rewrite Forall_forall in P. specialize (P s Hs).
@@ -360,6 +361,76 @@ Section Whole.
     assert (k' = k) by (apply (bin_unique xk x); try assumption; apply xk_increasing). subst k'.
     exists x, (inv_lad (xk k) (wk k) (yk k) (hk k) (dk k) (dk (S k)) y). split; [exact E|]. split; [exact Hxb|].
     unfold F, Flad. rewrite E'. split; [exact Hfx|]. unfold x. apply inv_lad_neg. exact Pw.
+  Qed.
+
+  (* ---- differentiability of the whole spline, knots included ---- *)
+  Lemma xk_within i : (i <= K)%nat -> b_left bx <= xk i <= b_right bx.
+  Proof. intros Hi. unfold xk, cw. apply knots_within; assumption. Qed.
+
+  Lemma F_on_bin j y : (j < K)%nat -> xk j <= y -> y < xk (S j) ->
+    F y = fwd (xk j) (wk j) (yk j) (hk j) (dk j) (dk (S j)) y /\ Flad y = lad (xk j) (wk j) (yk j) (hk j) (dk j) (dk (S j)) y.
+  Proof.
+    intros Hj A B.
+    assert (Hb : b_left bx <= y <= b_right bx).
+    { pose proof (xk_within j ltac:(lia)). pose proof (xk_within (S j) ltac:(lia)). lra. }
+    destruct (forward_in_bin y Hb) as [k [Hk [Hge [Hlt [Hle E]]]]].
+    assert (k = j) by (apply (bin_unique xk y); try assumption; [apply xk_increasing | left; exact B]). subst k.
+    unfold F, Flad. rewrite E. split; reflexivity.
+  Qed.
+
+  Definition Dk (k : nat) (x : R) : R := deriv (xk k) (wk k) (hk k) (dk k) (dk (S k)) x.
+
+  Lemma fwd_k_derive k x : (k < K)%nat -> xk k <= x <= xk (S k) ->
+    is_derive (fwd (xk k) (wk k) (yk k) (hk k) (dk k) (dk (S k))) x (Dk k x).
+  Proof.
+    intros Hk Hx. destruct (bin_facts k Hk) as [Pw [Ph [Pd0 [Pd1 [Ex Ey]]]]].
+    apply (fwd_derive (xk k) (wk k) (yk k) (hk k) (dk k) (dk (S k)) Pw Ph Pd0 Pd1 x). rewrite Ex. exact Hx.
+  Qed.
+
+  Theorem whole_derivative x : b_left bx < x < b_right bx ->
+    is_derive F x (exp (Flad x)) /\ 0 < exp (Flad x).
+  Proof.
+    intros [Hl Hr]. split; [|apply exp_pos].
+    destruct (forward_in_bin x ltac:(lra)) as [k [Hk [Hge [Hlt [Hle E]]]]].
+    destruct (bin_facts k Hk) as [Pw [Ph [Pd0 [Pd1 [Ex Ey]]]]].
+    assert (HxK : xk K = b_right bx) by (unfold xk, cw; apply knots_last; assumption).
+    assert (Hx0 : xk 0 = b_left bx) by (unfold xk, cw; apply knots_first; assumption).
+    assert (Hlt' : x < xk (S k)).
+    { destruct Hlt as [L|EK]; [exact L|]. rewrite EK, HxK. exact Hr. }
+    assert (Hin : xk k <= x <= xk k + wk k) by (rewrite Ex; lra).
+    assert (EL : exp (Flad x) = Dk k x).
+    { unfold Flad. rewrite E. unfold Dk. rewrite (lad_is_ln_deriv _ _ (yk k) _ _ _ Pw Ph Pd0 Pd1 x Hin).
+      apply exp_ln. apply deriv_pos; assumption. }
+    rewrite EL.
+    destruct (Rle_lt_or_eq_dec _ _ Hge) as [Hgt|Eq].
+    - (* strictly inside bin k: F coincides with the bin formula on a neighbourhood *)
+      apply (derive_ext_near F (fwd (xk k) (wk k) (yk k) (hk k) (dk k) (dk (S k))) x (Dk k x)).
+      + apply fwd_k_derive; [exact Hk | lra].
+      + exists (Rmin (x - xk k) (xk (S k) - x)). split; [apply Rmin_glb_lt; lra|].
+        intros y [Y1 Y2].
+        assert (xk k < y) by (pose proof (Rmin_l (x - xk k) (xk (S k) - x)); lra).
+        assert (y < xk (S k)) by (pose proof (Rmin_r (x - xk k) (xk (S k) - x)); lra).
+        apply F_on_bin; [exact Hk | lra | assumption].
+    - (* x is the knot x_k, with k >= 1 because x > left *)
+      assert (Hk1 : (0 < k)%nat).
+      { destruct k as [|k']; [exfalso; rewrite Hx0 in Eq; lra | lia]. }
+      destruct k as [|j]; [lia|].
+      assert (Hj : (j < K)%nat) by lia.
+      destruct (bin_facts j Hj) as [Pwj [Phj [Pd0j [Pd1j [Exj Eyj]]]]].
+      apply (derive_glue F (fwd (xk j) (wk j) (yk j) (hk j) (dk j) (dk (S j)))
+                           (fwd (xk (S j)) (wk (S j)) (yk (S j)) (hk (S j)) (dk (S j)) (dk (S (S j)))) x (Dk (S j) x)).
+      + (* left piece at its right end: derivative d_{j+1} *)
+        replace (Dk (S j) x) with (Dk j x).
+        * apply fwd_k_derive; [exact Hj | rewrite <- Eq; pose proof (xk_increasing j (S j) ltac:(lia) ltac:(lia)); lra].
+        * unfold Dk. rewrite <- Eq.
+          rewrite (deriv_left (xk (S j)) (wk (S j)) (hk (S j)) (dk (S j)) (dk (S (S j))) Pw Ph).
+          rewrite <- Exj. apply deriv_right; assumption.
+      + apply fwd_k_derive; [exact Hk | lra].
+      + (* values agree at the knot *)
+        unfold F. rewrite E. rewrite <- Eq. rewrite fwd_left by assumption. rewrite <- Exj. rewrite fwd_right by assumption. exact Eyj.
+      + unfold F. rewrite E. reflexivity.
+      + exists (wk j). split; [exact Pwj|]. intros y [Y1 Y2]. apply F_on_bin; [exact Hj | rewrite <- Eq in Y1; lra | rewrite <- Eq in Y2; exact Y2].
+      + exists (wk (S j)). split; [exact Pw|]. intros y [Y1 Y2]. apply F_on_bin; [exact Hk | rewrite <- Eq in Y1; lra | rewrite <- Ex; rewrite <- Eq in Y2; lra].
   Qed.
 End Whole.
 
